@@ -42,7 +42,27 @@ var commonTrusted = []string{
 
 // importRules evaluates the rule set of another property on a sub-context and imports the obligations of the given
 // rules under new rule names (a rule shared between properties is a necessary condition of both).
+// importStack guards against import cycles (C11 imports rules of C04, whose extras import rules of C11): a rule set that
+// is already being evaluated further up is not entered again; the rules wanted from it belong to its own body, which the
+// outer evaluation provides.
+var importStack []string
+
 func importRules(c *core.Ctx, fromProp string, rename map[string]string) int {
+	for _, p := range importStack {
+		if p == fromProp {
+			return 0
+		}
+	}
+	if len(importStack) == 0 {
+		importStack = append(importStack, c.Prop)
+		defer func() { importStack = importStack[:0] }()
+	}
+	importStack = append(importStack, fromProp)
+	defer func() {
+		if n := len(importStack); n > 0 && importStack[n-1] == fromProp {
+			importStack = importStack[:n-1]
+		}
+	}()
 	rs := Registry[fromProp]
 	if rs == nil {
 		for _, to := range rename {
